@@ -177,6 +177,10 @@ pub struct World {
     outage_left: [u32; 2],
     /// highest seq end seen per direction (to classify retransmissions)
     snd_high: [Option<u32>; 2],
+    /// last sequence-space-occupying segment sent per node: (seq, len incl. FIN)
+    pub last_data: [Option<(u32, u32)>; 2],
+    /// last ACK number / window sent per node
+    pub last_ack: [Option<(u32, u16)>; 2],
     pub stats: Stats,
     pub events: u64,
     /// check the C02 finite-deadline invariant after every poll
@@ -241,6 +245,8 @@ impl World {
             macs,
             outage_left: [0, 0],
             snd_high: [None, None],
+            last_data: [None, None],
+            last_ack: [None, None],
             stats: Stats {
                 frames: [0, 0],
                 dropped: 0,
@@ -305,6 +311,12 @@ impl World {
                         let t = &d.seg;
                         occupies_seq = t.seg_len() > 0;
                         let end = t.seq.wrapping_add(t.seg_len());
+                        if occupies_seq && !t.has(SYN) {
+                            self.last_data[from] = Some((t.seq, t.seg_len()));
+                        }
+                        if t.has(ACK) && !t.has(RST) {
+                            self.last_ack[from] = Some((t.ack, t.win));
+                        }
                         if occupies_seq {
                             match self.snd_high[from] {
                                 Some(h) if !seq_lt(h, end) => {
@@ -424,7 +436,9 @@ impl World {
         let s = self.sock(i);
         let st = s.state();
         let q = s.send_queue();
-        let needs = q > 0 || matches!(st, tcp::State::SynSent | tcp::State::SynReceived | tcp::State::FinWait1 | tcp::State::Closing | tcp::State::LastAck);
+        // a connection that no longer exists (CLOSED after a reset) has nothing left to acknowledge
+        let live = !matches!(st, tcp::State::Closed | tcp::State::Listen | tcp::State::TimeWait);
+        let needs = live && (q > 0 || matches!(st, tcp::State::SynSent | tcp::State::SynReceived | tcp::State::FinWait1 | tcp::State::Closing | tcp::State::LastAck));
         if needs && d.is_none() {
             return Err(Fail::new(
                 format!("no-deadline:state={}:sendq={}", st, if q > 0 { ">0" } else { "0" }),
@@ -469,7 +483,11 @@ impl World {
             }
         }
         // ---- reader
-        if now >= self.apps[i].paused_until && !self.apps[i].finished_seen {
+        // The application reads out what is left as soon as the connection is over: smoltcp
+        // resets the socket (dropping unread data and the Finished indication) when TIME-WAIT
+        // expires, so an application must not sleep through the end of the connection.
+        let over = matches!(self.sock(i).state(), tcp::State::TimeWait | tcp::State::Closed);
+        if (now >= self.apps[i].paused_until || over) && !self.apps[i].finished_seen {
             let mut rounds = 0;
             loop {
                 rounds += 1;
@@ -528,12 +546,15 @@ impl World {
                     }
                     Err(tcp::RecvError::InvalidState) => break,
                 }
-                if rounds > 8 || src.chance(1, 3) {
+                if !over && (rounds > 8 || src.chance(1, 3)) {
+                    break;
+                }
+                if rounds > 100_000 {
                     break;
                 }
             }
             // occasionally stop reading for a while (produces zero windows)
-            if src.chance(1, 40) {
+            if !over && src.chance(1, 40) {
                 let d = *src.pick(&[50_000i64, 1_000_000, 10_000_000, 70_000_000]);
                 self.apps[i].paused_until = now + d;
                 self.stats.total_pause_us += d;
@@ -664,6 +685,24 @@ impl World {
             ));
         }
         s
+    }
+
+    /// Diagnose a livelock from the last segments seen: node i "ignores acks" when it keeps
+    /// (re)transmitting sequence space that the peer's latest ACK number already covers.
+    pub fn acks_ignored(&mut self) -> [bool; 2] {
+        let mut r = [false, false];
+        for i in 0..2 {
+            let st = self.sock(i).state();
+            let pending = self.sock(i).send_queue() > 0 || matches!(st, tcp::State::FinWait1 | tcp::State::Closing | tcp::State::LastAck);
+            if !pending {
+                continue;
+            }
+            if let (Some((seq, len)), Some((ack, _))) = (self.last_data[i], self.last_ack[1 - i]) {
+                // everything this node last sent is already acknowledged by the peer
+                r[i] = seq_le(seq.wrapping_add(len), ack);
+            }
+        }
+        r
     }
 
     pub fn macs(&self) -> [[u8; 6]; 2] {
